@@ -73,6 +73,21 @@ def mk_T(unit, scalar, ps):
     return t
 
 
+def mk_U(unit, ps):
+    """a real UniformTime whose samples are exactly the ramp `ps` (len >= 1, constant positive step)"""
+    TA, U = ts().TimeArray, ts().UniformTime
+    d = (ps[1] - ps[0]) if len(ps) > 1 else 1000
+    u = U(t0=TA(np.int64(ps[0]), time_unit='ps'), sampling_interval=TA(np.int64(d), time_unit='ps'),
+          length=len(ps), time_unit=unit)
+    assert [int(v) for v in np.asarray(u)] == list(ps), 'harness: could not build the uniform axis'
+    return u
+
+
+def mk_self(m_or_self, uniform):
+    ua, sc, ps = m_or_self
+    return mk_U(ua, ps) if uniform else mk_T(ua, sc, ps)
+
+
 def tok_T(unit, scalar, ps):
     return 'T:%s:%s:%s' % (unit, '1' if scalar else '0', ','.join(str(p) for p in ps) if ps else '-')
 
@@ -256,6 +271,12 @@ def cases(rng, tier, seed):
                 pi += 1
                 sc = rng.random() < 0.3
                 ps = gen_ps(rng, 1 if sc else rng.randint(1, 4), True)
+                # every fourth cell: the time operand is a UNIFORM axis (UniformTime is a time object too)
+                uniform = (pi % 4 == 0)
+                if uniform:
+                    sc = False
+                    t0_, d_, n_ = rng.randint(-10**15, 10**15), rng.choice([1, 999, 10**9, 2 * 10**12 + 1, rng.randint(1, 10**13)]), rng.randint(1, 4)
+                    ps = [t0_ + i * d_ for i in range(n_)]
                 tok, build, meta = gen_operand(rng, kind, ua, len(ps))
                 near = opn in OPS_CMP and rng.random() < 0.6
                 if kind == 'time':   # force the unit pair
@@ -286,12 +307,12 @@ def cases(rng, tier, seed):
                         tok = 'N:0:' + ','.join(tok_num(v) for v in vs)
                         dt = {'int32': np.int32, 'int64': np.int64, 'float64': np.float64}.get(kind)
                         build = (lambda v=vs, dt=dt: list(v) if dt is None else np.array(v, dtype=dt))
-                meta.update(op=opn, self=(ua, sc, ps))
+                meta.update(op=opn, self=(ua, sc, ps), uniform=uniform)
                 fn = OPS_AR.get(opn) or OPS_CMP[opn]
                 canon = canon_T if opn in OPS_AR else canon_B
                 # the operands as objects, so that they can be looked at again after the operation: neither the time
                 # object nor the other operand (value, unit, dtype) may have changed
-                o_self, o_other = mk_T(ua, sc, ps), build()
+                o_self, o_other = mk_self((ua, sc, ps), uniform), build()
                 b_self, b_other = canon_T(o_self), operand_state(o_other)
                 impl = call(lambda: 'ok ' + canon(fn(o_self, o_other)))
                 meta['operands_unchanged'] = (canon_T(o_self) == b_self and operand_state(o_other) == b_other)
@@ -299,7 +320,7 @@ def cases(rng, tier, seed):
                 if impl.startswith('err'):
                     impl = 'err ValueError'   # numpy broadcasting errors are ValueError
                 out.append(Case('C01 binop %s %s %s' % (opn, tok_T(ua, sc, ps), tok), impl,
-                                'binop/%s/%s' % (opn, kind), meta=meta, nontrivial=any(ps)))
+                                'binop/%s/%s%s' % (opn, kind, '/uniform-axis' if uniform else ''), meta=meta, nontrivial=any(ps)))
     # --- sequences: the SAME number given as float and then as int (and the other way round): a conversion cached
     # on the value would hand the int the float-rounded picoseconds (n*factor beyond 2^53 and not a double)
     for rep in range(12 * n):
@@ -549,7 +570,7 @@ def rebuild_case(line, clause, m):
     else:
         fn = OPS_AR.get(op) or OPS_CMP[op]
         canon = canon_T if op in OPS_AR else canon_B
-        o_self, o_other = mk_T(*m['self']), operand()
+        o_self, o_other = mk_self(m['self'], m.get('uniform', False)), operand()
         b_self, b_other = canon_T(o_self), operand_state(o_other)
         impl = call(lambda: 'ok ' + canon(fn(o_self, o_other)))
         if impl.startswith('err'):
